@@ -4,18 +4,23 @@ checks: applies patch.diff in a scratch worktree, confirms (suite passes, demo f
 change), runs the quick tier of the property's check (and of any extra checks listed in meta.caught_by) with
 VERIF_REPO. Writes seeded/results.json. usage: tools/seeds_all.py [name-substring...]"""
 import json, os, shutil, subprocess, sys, time
-WT = "/tmp/verif-seed-wt"
+# SEEDS_SHARD=i/n evaluates every n-th seed (by sorted position) in a worktree and a results file of its
+# own (seeded/results.<i>.json); tools/seeds_merge.py merges the shard files into seeded/results.json.
+SHARD = os.environ.get("SEEDS_SHARD", "")
+SI, SN = (int(x) for x in SHARD.split("/")) if SHARD else (0, 1)
+WT = "/tmp/verif-seed-wt" + (str(SI) if SHARD else "")
 ENV = dict(os.environ, GOFLAGS="-mod=mod", GOPROXY="off", GOSUMDB="off", GOTOOLCHAIN="local")
 def sh(cmd, cwd=None, env=None):
     p = subprocess.run(cmd, shell=True, cwd=cwd, env=env or ENV, stdout=subprocess.PIPE, stderr=subprocess.STDOUT, text=True, errors="replace")
     return p.returncode, p.stdout
 sh(f"git -C /repo worktree remove --force {WT}")
 rc, out = sh(f"git -C /repo worktree add -q --detach {WT} HEAD"); assert rc == 0, out
-res_path = "/verif/seeded/results.json"
+res_path = "/verif/seeded/results.json" if not SHARD else f"/verif/seeded/results.{SI}.json"
 results = json.load(open(res_path)) if os.path.exists(res_path) else {}
-for name in sorted(os.listdir("/verif/seeded")):
+names = [n for n in sorted(os.listdir("/verif/seeded")) if os.path.isdir(f"/verif/seeded/{n}")]
+for pos, name in enumerate(names):
     d = f"/verif/seeded/{name}"
-    if not os.path.isdir(d) or (sys.argv[1:] and not any(s in name for s in sys.argv[1:])):
+    if pos % SN != SI or (sys.argv[1:] and not any(s in name for s in sys.argv[1:])):
         continue
     meta = json.load(open(f"{d}/meta.json"))
     if meta.get("superseded_by_fix"):
